@@ -28,10 +28,12 @@ type DepOracle struct {
 	// all stage call paths
 	Stages    []string
 	Preflight map[string]bool
+	// stage call paths whose stage declares no output parameter
+	NoOuts map[string]bool
 }
 
 func NewDepOracle(ast *syntax.Ast) *DepOracle {
-	d := &DepOracle{ast: ast, Deps: map[string]map[string]bool{}, Preflight: map[string]bool{}}
+	d := &DepOracle{ast: ast, Deps: map[string]map[string]bool{}, Preflight: map[string]bool{}, NoOuts: map[string]bool{}}
 	if ast.Call == nil {
 		return d
 	}
@@ -100,6 +102,9 @@ func (d *DepOracle) walk(ctx *depCtx, inherited map[string]bool, preflights map[
 		case *syntax.Stage:
 			p := key(path)
 			d.Stages = append(d.Stages, p)
+			if callee.OutParams == nil || len(callee.OutParams.List) == 0 {
+				d.NoOuts[p] = true
+			}
 			if !(c.Modifiers != nil && c.Modifiers.Preflight) {
 				for k := range pf {
 					deps[k] = true
